@@ -1,7 +1,7 @@
 (** C29 — case evaluators: trace inclusion of REAL network runs in the acceptor,
     plus an exact tie of what happens inside the network (flit counts per
     message = C31's model, switches visited = C30's tables / mesh routing). *)
-From Akita Require Import Lib.Base C30.Model C30.Exec C31.Model C31.Exec C29.Model.
+From Akita Require Import Lib.Base C30.Model C30.Exec C31.Model C31.Exec C29.Model C29.ProofsTreeNet C29.ProofsTreeFW.
 
 (** compact event constructors used by the harness *)
 Definition S (p : N) (m : meta) : event := DevSend p m.
@@ -18,7 +18,10 @@ Record case := mk_case {
   c_trace : list event;         (* device-port events in simulation order, then E *)
   o_flits : list N;             (* per message: flits that left the source endpoint *)
   o_paths : list (list N);      (* per message: switches visited (index; coordinate code for mesh) *)
-  o_uniform : bool }.           (* every flit of a message took the same path *)
+  o_uniform : bool;             (* every flit of a message took the same path *)
+  c_par : list N; c_lab : list N; c_unlab : list N }.
+  (* kind 1 (PCIe): the tree the calls describe — parent of every tree node (switches in creation
+     order, then devices), and the translation between the connector's node list and the tree *)
 
 Definition owner_of (devports : list (list N)) (p : N) : option nat :=
   (fix go (l : list (list N)) (i : nat) : option nat :=
@@ -70,8 +73,19 @@ Fixpoint check_msgs (c : case) (ms : list meta) (fl : list N) (ps : list (list N
   end.
 
 (** inside the network the real run did what the C30 / C31 models say *)
+(** a PCIe network is a tree: the certificate of c29_tree_routes_are_c30_tables holds for the
+    graph the connector hands to the router *)
+Definition lookup (l : list N) (v : nat) : nat := N.to_nat (nth v l 0%N).
+
+Definition tree_ok (c : case) : bool :=
+  if (c_kind c =? 1)%N then
+    let '(cn, ok) := apply_ops conn_empty (map dec_op (c_ops c)) in
+    ok && tree_certb (length (graph_of cn)) (lookup (c_par c)) (graph_of cn) (lookup (c_lab c)) (lookup (c_unlab c)) &&
+    (length (c_par c) =? length (graph_of cn))
+  else true.
+
 Definition check_case (c : case) : bool :=
-  o_uniform c && check_msgs c (c_msgs c) (o_flits c) (o_paths c).
+  o_uniform c && check_msgs c (c_msgs c) (o_flits c) (o_paths c) && tree_ok c.
 
 (** the property: the device-port trace is accepted and the run was closed *)
 Definition ends_with_end (tr : list event) : bool :=
